@@ -726,10 +726,11 @@ static int parse_single_cert(psPool_t *pool, const unsigned char **pp,
         goto out;
     }
     /* The whole list of certs could be > 64K bytes, but we still
-       restrict individual certs to 64KB */
-    if (oneCertLen > 0xFFFF)
+       restrict individual certs to 64KB. The limit applies to the whole
+       encoding including the outer tag and length octets, because its size
+       (binLen) and the offsets into it are stored in 16-bit members. */
+    if (oneCertLen + (uint32_t) (p - certStart) > 0xFFFF)
     {
-        psAssert(oneCertLen <= 0xFFFF);
         func_rc = PS_FAILURE;
         goto out;
     }
